@@ -242,6 +242,26 @@ class Ctx:
                 acts["%s.%s" % (m.group(2), m.group(1))] = [int(m.group(3)), int(m.group(4))]
         self.coverage_actions[name] = acts
 
+    # ------------------------------------------------------- Apalache (symbolic, unbounded complements)
+    def apalache(self, tladir, module, args, timeout=600):
+        """apalache-mc check <args> <module>.tla; True = no error, False = counterexample found, None = the tool
+        did not deliver a verdict (missing, timeout, internal error): noted in the evidence, never a violation --
+        the bounded TLC legs decide the property, this is an unbounded complement on the specification"""
+        src = os.path.join(ROOT, "tla", tladir)
+        out = os.path.join(self.work, "apalache_%s_%s.out" % (module, "_".join(a.split("=")[-1] for a in args)))
+        cmd = ["timeout", str(timeout), "apalache-mc", "check", "--out-dir=" + os.path.join(self.work, "apalache-out")] + list(args) + [module + ".tla"]
+        t0 = time.time()
+        try:
+            p = subprocess.run(cmd, cwd=src, stdout=subprocess.PIPE, stderr=subprocess.STDOUT, text=True)
+            txt = p.stdout
+        except OSError as e:
+            txt = "cannot run apalache-mc: %s" % e
+        open(out, "w").write(txt)
+        verdict = True if "EXITCODE: OK" in txt else False if "Checker has found an error" in txt else None
+        log("apalache %s/%s %s: %s %.1fs" % (tladir, module, " ".join(args), {True: "no error", False: "ERROR FOUND", None: "no verdict"}[verdict], time.time() - t0))
+        self.extra.setdefault("apalache", []).append({"module": module, "args": list(args), "verdict": verdict, "output": out})
+        return verdict, out
+
     # ------------------------------------------------------- trace validation
     def validate_trace(self, tladir, module, cfg, trace, *, timeout=1800, xmx="4g", name=None, extra_env=None):
         """code -> spec: TLC checks that the recorded trace is a behaviour of the Trace_* spec.
